@@ -99,6 +99,14 @@ def generate(rnd, tier):
         normal = {"mu_pos": round(rnd.uniform(-10, 10), 3), "mu_neg": None if rnd.random() < 0.3 else round(rnd.uniform(-10, 10), 3),
                   "sigma_pos": rnd.choice([3.75, round(rnd.uniform(0.05, 20), 3)]), "sigma_neg": rnd.choice([3.0, round(rnd.uniform(0.05, 20), 3)]),
                   "p_pos": gen_prob(rnd), "n": rnd.choice([None, rnd.randint(1, 500)]), "score_class": rnd.choice(["pos", "neg"])}
+        if rnd.random() < 0.12:
+            # scores sitting on a large offset (timestamps, raw counts): |mu| / sigma far beyond 1/eps**0.5
+            off = rnd.choice([-1, 1]) * 10.0 ** rnd.randint(7, 14)
+            normal["mu_pos"] = off + normal["mu_pos"]
+            if normal["mu_neg"] is not None:
+                normal["mu_neg"] = off + normal["mu_neg"]
+        if rnd.random() < 0.15:
+            normal["param_type"] = rnd.choice(["float32", "float16", "int"])
     bern = {"p": gen_prob(rnd), "n": rnd.choice([None, rnd.randint(1, 500)])}
     p1, p2 = gen_prob(rnd), gen_prob(rnd)
     # rho: inside the admissible interval, outside, or anywhere
@@ -118,7 +126,8 @@ def generate(rnd, tier):
             ops.append({"ds": "correlated", "n": n, "random": random_, "rng": gen_rng(rnd, ["choice"] if random_ else ["shuffle"])})
     return {"np_seed": rnd.randrange(2**31), "normal": normal, "bernoulli": bern, "correlated": corr, "ops": ops,
             "analytic_q": [rnd.choice([1e-12, 1e-9, 1e-6, 1e-3, 0.5, 1 - 1e-6, 1 - 1e-9, 1 - 1e-12, round(rnd.uniform(0.001, 0.999), 4)]) for _ in range(3)],
-            "analytic_z": [round(rnd.uniform(-5, 5), 3) if rnd.random() < 0.7 else round(rnd.uniform(-8, 8), 3) for _ in range(3)]}
+            "analytic_z": [round(rnd.uniform(-5, 5), 3) if rnd.random() < 0.7 else round(rnd.uniform(-8, 8), 3) for _ in range(3)],
+            "analytic_dtype": rnd.choice(["float32", "float16", "float32", "int32", "int8", "uint8"])}
 
 
 # --------------------------------------------------------------------------
@@ -163,6 +172,7 @@ def execute(scn, ctx):
     probes, faults = {}, {}
     states = set()
     n_adv = 0
+    nd_float = None
 
     def probe(name, k=1):
         probes[name] = probes.get(name, 0) + k
@@ -179,8 +189,24 @@ def execute(scn, ctx):
             nd = E.NormalDataset.from_metrics(fm["fnr"], fm["fpr"], fm["fnr_support"], fm["fpr_support"],
                                               sigma_pos=fm["sigma_pos"], sigma_neg=fm["sigma_neg"])
         else:
-            nd = E.NormalDataset(mu_pos=ns["mu_pos"], mu_neg=ns["mu_neg"], sigma_pos=ns["sigma_pos"], sigma_neg=ns["sigma_neg"],
-                                 p_pos=ns["p_pos"], n=ns["n"], score_class=ns["score_class"])
+            pt = ns.get("param_type")
+            if pt:
+                # model parameters handed over as low-precision NumPy scalars (or ints): the model is the one
+                # with the parameters' exact values, so the analytic answers must be those of the float model
+                probe("param_" + pt)
+                conv = (lambda v: None if v is None else int(round(v))) if pt == "int" else (lambda v: None if v is None else getattr(np, pt)(v))
+                mp_, mn_ = conv(ns["mu_pos"]), conv(ns["mu_neg"])
+                sp_, sn_ = (max(1, int(round(ns["sigma_pos"]))), max(1, int(round(ns["sigma_neg"])))) if pt == "int" else (conv(ns["sigma_pos"]), conv(ns["sigma_neg"]))
+                if not all(np.isfinite(float(v)) and float(v) != 0 for v in (sp_, sn_)) or not all(v is None or np.isfinite(float(v)) for v in (mp_, mn_)):
+                    mp_, mn_, sp_, sn_ = ns["mu_pos"], ns["mu_neg"], ns["sigma_pos"], ns["sigma_neg"]
+                    pt = None
+                nd = E.NormalDataset(mu_pos=mp_, mu_neg=mn_, sigma_pos=sp_, sigma_neg=sn_, p_pos=ns["p_pos"], n=ns["n"], score_class=ns["score_class"])
+                if pt:
+                    fl = lambda v: None if v is None else float(v)  # noqa: E731
+                    nd_float = E.NormalDataset(mu_pos=fl(mp_), mu_neg=fl(mn_), sigma_pos=fl(sp_), sigma_neg=fl(sn_), p_pos=ns["p_pos"], n=ns["n"], score_class=ns["score_class"])
+            else:
+                nd = E.NormalDataset(mu_pos=ns["mu_pos"], mu_neg=ns["mu_neg"], sigma_pos=ns["sigma_pos"], sigma_neg=ns["sigma_neg"],
+                                     p_pos=ns["p_pos"], n=ns["n"], score_class=ns["score_class"])
     except Exception as e:  # noqa: BLE001
         bad("construct", f"NormalDataset construction raised {type(e).__name__}: {e}")
         nd = None
@@ -199,28 +225,34 @@ def execute(scn, ctx):
         if str(getattr(nd.score_class, "value", nd.score_class)) == "neg":
             probe("score_class_neg")
         try:
+            mus = [abs(float(nd.mu_pos)), abs(float(nd.mu_neg))]
+            illc = max(mus) / min(float(nd.sigma_pos), float(nd.sigma_neg)) > 1e6
+            if illc:
+                probe("ill_conditioned_offset")
             for q in scn["analytic_q"]:
                 t = nd.threshold_at_fnr(q)
                 if not isinstance(t, float):
                     bad("analytic_scalar", f"threshold_at_fnr({q}) returned {type(t).__name__}, expected a plain scalar")
                 tol = 1e-9 * min(q, 1 - q) + 4e-16  # relative in both tails (measured on the unchanged tree: 9e-14)
-                if abs(nd.fnr(t) - q) > tol:
+                if not illc and abs(nd.fnr(t) - q) > tol:
                     bad("analytic_inverse", f"fnr(threshold_at_fnr({q})) = {nd.fnr(t)!r}")
                 t = nd.threshold_at_fpr(q)
-                if abs(nd.fpr(t) - q) > tol:
+                if not illc and abs(nd.fpr(t) - q) > tol:
                     bad("analytic_inverse", f"fpr(threshold_at_fpr({q})) = {nd.fpr(t)!r}")
                 if not isinstance(nd.fpr(t), float):
                     bad("analytic_scalar", f"fpr(scalar) returned {type(nd.fpr(t)).__name__}")
             for z in scn["analytic_z"]:
+                if illc:
+                    break
                 # cdf/ppf are accurate in the lower tail, sf/isf in the upper tail; near 1 a rate cannot carry
                 # the threshold in double precision, so each round trip is asked only where it is well-posed
                 zf = min(z, 5.0)
-                t = nd.mu_pos + zf * nd.sigma_pos
+                t = float(nd.mu_pos) + zf * float(nd.sigma_pos)
                 back = nd.threshold_at_fnr(nd.fnr(t))
                 if abs(back - t) > 1e-6 * max(1.0, nd.sigma_pos):
                     bad("analytic_inverse", f"threshold_at_fnr(fnr({t})) = {back!r}")
                 zp = max(z, -5.0)
-                t = nd.mu_neg + zp * nd.sigma_neg
+                t = float(nd.mu_neg) + zp * float(nd.sigma_neg)
                 back = nd.threshold_at_fpr(nd.fpr(t))
                 if abs(back - t) > 1e-6 * max(1.0, nd.sigma_neg):
                     bad("analytic_inverse", f"threshold_at_fpr(fpr({t})) = {back!r}")
@@ -231,10 +263,36 @@ def execute(scn, ctx):
                 f_at, p_at = np.asarray(nd.fnr(np.asarray(c.thresholds))), np.asarray(nd.fpr(np.asarray(c.thresholds)))
                 if not (np.all(np.abs(np.asarray(c.fnr) - f_at) <= 1e-9 * np.minimum(f_at, 1 - f_at) + 4e-16)
                         and np.all(np.abs(np.asarray(c.fpr) - p_at) <= 1e-9 * np.minimum(p_at, 1 - p_at) + 4e-16)):
-                    bad("analytic_roc", f"roc({list(kw)[0]}=...) rates are not the rates at its thresholds")
+                    bad("analytic_roc", f"roc({list(kw)[0]}=...) rates are not the rates at its thresholds: fnr {np.asarray(c.fnr).tolist()} vs {f_at.tolist()}, "
+                                        f"fpr {np.asarray(c.fpr).tolist()} vs {p_at.tolist()}", {"illc": bool(illc)})
                 given = np.asarray(c.fnr if "fnr" in kw else c.fpr)
-                if not np.all(np.abs(given - qa) <= rt):
+                if not illc and not np.all(np.abs(given - qa) <= rt):
                     bad("analytic_roc", f"roc({list(kw)[0]}=q) does not pass through q: {given.tolist()} vs {qa.tolist()}")
+            # the analytic rates are functions of the threshold's value: a threshold array (or NumPy scalar) of
+            # another dtype gives, element by element, what the Python-float call gives
+            adt = scn.get("analytic_dtype")
+            if adt and not ns.get("param_type"):  # (all-float32 inputs make scipy itself work in single precision)
+                zs = np.asarray(scn["analytic_z"], dtype=float)
+                for mu_, sg_, fn_ in ((float(nd.mu_pos), float(nd.sigma_pos), nd.fnr), (float(nd.mu_neg), float(nd.sigma_neg), nd.fpr)):
+                    with np.errstate(all="ignore"):
+                        ta = (mu_ + zs * sg_).astype(getattr(np, adt))
+                    if not np.all(np.isfinite(ta.astype(float))):
+                        continue
+                    probe("analytic_dtype_" + adt)
+                    want = np.array([fn_(float(x)) for x in ta], dtype=float)
+                    for label, got in (("array", np.asarray(fn_(ta), dtype=float)), ("scalar", np.array([fn_(x) for x in ta], dtype=float))):
+                        if not np.all(np.abs(got - want) <= 1e-12 * want + 4e-16):
+                            bad("analytic_dtype", f"{fn_.__name__}({label} of {adt} {ta.tolist()}) = {got.tolist()}, but the same values as Python floats give {want.tolist()}",
+                                {"dtype": adt, "form": label})
+            if nd_float is not None:
+                zs = np.asarray(scn["analytic_z"], dtype=float)
+                ta = float(nd.mu_pos) + np.clip(zs, -5, 5) * float(nd.sigma_pos)
+                for name_, arg in (("fnr", ta), ("fpr", ta), ("threshold_at_fnr", qa), ("threshold_at_fpr", qa)):
+                    got, want = np.asarray(getattr(nd, name_)(arg), dtype=float), np.asarray(getattr(nd_float, name_)(arg), dtype=float)
+                    scale = want if name_ in ("fnr", "fpr") else np.abs(want) + float(nd.sigma_pos) + float(nd.sigma_neg)
+                    if not np.all(np.abs(got - want) <= 1e-12 * scale + 4e-16):
+                        bad("analytic_dtype", f"{name_}({arg.tolist()}) of a model with {ns.get('param_type')} parameters = {got.tolist()}, the float model with the same values gives {want.tolist()}",
+                            {"param_type": ns.get("param_type"), "fn": name_})
             for kw in ({}, {"fnr": qa, "fpr": qa}):
                 try:
                     nd.roc(**kw)
@@ -307,8 +365,9 @@ def execute(scn, ctx):
                             if not (np.all(np.asarray(s.pos) == nd.mu_pos) and np.all(np.asarray(s.neg) == nd.mu_neg)):
                                 bad("normal_sample", f"with zero noise the scores must equal the class means ({nd.mu_pos}, {nd.mu_neg})", tags)
                         if "normal_alternating" in fired and len(getattr(rng, "last_normals", [])) == 2:
-                            okp = np.all(np.isclose(np.abs(np.asarray(s.pos) - nd.mu_pos), nd.sigma_pos, rtol=1e-12, atol=1e-12))
-                            okn = np.all(np.isclose(np.abs(np.asarray(s.neg) - nd.mu_neg), nd.sigma_neg, rtol=1e-12, atol=1e-12))
+                            at_ = 1e-12 + 4 * float(np.spacing(abs(float(nd.mu_pos)) + abs(float(nd.mu_neg)) + float(nd.sigma_pos) + float(nd.sigma_neg)))
+                            okp = np.all(np.isclose(np.abs(np.asarray(s.pos) - float(nd.mu_pos)), float(nd.sigma_pos), rtol=1e-12, atol=at_))
+                            okn = np.all(np.isclose(np.abs(np.asarray(s.neg) - float(nd.mu_neg)), float(nd.sigma_neg), rtol=1e-12, atol=at_))
                             if not (okp and okn):
                                 bad("normal_sample", "with +-1 sigma noise the scores must be mu +- sigma of their own class", tags)
                     if not (M.is_sorted(s.pos) and M.is_sorted(s.neg)):
